@@ -6,9 +6,11 @@ import frontend
 from values import Unsupported
 
 VERIF = frontend.VERIF
-EVIDENCE_DIR = os.path.join(VERIF, 'evidence')
+# evidence and replays go to /verif; scratch experiments (VERIF_REPO set to a scratch worktree) write under VERIF_WORK instead
+_OUT = VERIF if os.path.realpath(frontend.REPO) == '/repo' else frontend.WORK
+EVIDENCE_DIR = os.path.join(_OUT, 'evidence')
 KNOWN = os.path.join(VERIF, 'known_findings.json')
-REPLAY_DIR = os.path.join(VERIF, 'replays')
+REPLAY_DIR = os.path.join(_OUT, 'replays')
 
 
 def env_tier():
